@@ -8,7 +8,7 @@ CONSTANTS
   CRates = {3}
   Shapes = {"root-msgpack"}
   MaxSpans = 3
-  StressNodes = {"a", "b"}
+  StressNodes = {"b"}
   SKeep <- mc_SKeepM
   StressRate = 5
   WithPlain = FALSE
